@@ -752,6 +752,11 @@ impl HandlerRunner {
             self.wire.push(Datagram { from_idx: idx, src, dst, dst_id, bytes });
             out.push(format!("!INFO wire #{} {}->{} {}", k, idx, dst_idx, sends.last().unwrap()));
         }
+        if self.cur_wru_foreign && (!events.is_empty() || !sends.is_empty()) {
+            // a WHOAREYOU that does not come from where the echoed request went changes nothing
+            out.push(format!("!MON C03 whoareyou-from-foreign-address-had-an-effect node={} reaction={}", idx,
+                events.iter().chain(sends.iter()).next().map(|s| s.chars().take(60).collect::<String>()).unwrap_or_default()));
+        }
         if self.cur_hs_unchallenged && (!events.is_empty() || !sends.is_empty()) {
             // a handshake packet counts only while a WHOAREYOU of this node is outstanding for its
             // sender; otherwise it is dropped without any effect
@@ -1256,6 +1261,14 @@ impl HandlerRunner {
                         let me = self.nodes[xi].idx;
                         let other = self.nodes.iter().find(|n| n.idx != me && n.idx != self.id_idx_ro(&na.node_id)).or_else(|| self.nodes.iter().find(|n| n.idx != me)).map(|n| n.enr.clone()).unwrap_or(own.clone());
                         ResponseBody::Nodes { total: 1, nodes: vec![other] }
+                    }
+                    // two records in one answer: the node's own and a (validly signed) foreign one, in
+                    // either order
+                    "nodesownother" | "nodesotherown" => {
+                        let me = self.nodes[xi].idx;
+                        let other = self.nodes.iter().find(|n| n.idx != me && n.idx != self.id_idx_ro(&na.node_id)).or_else(|| self.nodes.iter().find(|n| n.idx != me)).map(|n| n.enr.clone()).unwrap_or(own.clone());
+                        let nodes = if kind == "nodesownother" { vec![own, other] } else { vec![other, own] };
+                        ResponseBody::Nodes { total: 1, nodes }
                     }
                     _ => ResponseBody::Talk { response: b"y".to_vec() },
                 };
@@ -1894,7 +1907,7 @@ pub fn gen_case(rng: &mut Rng, tier: &str, profile: &str, stats: &mut Stats) -> 
             ops.push("hdel last".into());
         }
         for _ in 0..2 { ops.push("hdel next".into()); }
-        let enr_answer = match rng.below(5) { 0 => "nodesother", 1 => "nodesbad", _ => "auto" };
+        let enr_answer = match rng.below(7) { 0 => "nodesother", 1 => "nodesbad", 2 => "nodesownother", 3 => "nodesotherown", _ => "auto" };
         ops.push(format!("hresp {} next auto", y)); ops.push("hdel next".into());
         ops.push(format!("hresp {} next {}", y, enr_answer)); ops.push("hdel next".into());
         ops.push("hdel next".into());
@@ -1983,7 +1996,7 @@ pub fn gen_case(rng: &mut Rng, tier: &str, profile: &str, stats: &mut Stats) -> 
             }
             73..=84 => {
                 let x = rng.range(1, n);
-                let kind = match rng.below(15) { 0 => "nodes1", 1 => "nodes3", 2 => "nodes0", 3 => "talk", 4 => "nodesbad", 5 => "pong", 6 => "nodesother", _ => "auto" };
+                let kind = match rng.below(17) { 0 => "nodes1", 1 => "nodes3", 2 => "nodes0", 3 => "talk", 4 => "nodesbad", 5 => "pong", 6 => "nodesother", 7 => "nodesownother", 8 => "nodesotherown", _ => "auto" };
                 ops.push(format!("hresp {} next {}", x, kind));
                 emitted += 1;
             }
